@@ -33,6 +33,7 @@ VECS = [
     {"use_push_pop_functions": True, "remove_labels": True, "compact": True},
     {"tail_call_optimization": True}, {"tail_call_optimization": True, "inline_functions": False},
     {"tail_call_optimization": True, "use_push_pop_functions": True, "inline_functions": False},
+    {"tail_call_optimization": True, "use_push_pop_functions": True},
 ]
 
 
@@ -164,6 +165,10 @@ def cases(draw):
     if draw(st.integers(0, 39)) == 0:
         src = callgraph.HDR + RECURSIVE[draw(st.integers(0, len(RECURSIVE) - 1))]
         return {"src": {"": src}, "env_seeds": [1], "pool": [0.0, 1.0], "opts": VECS[draw(st.integers(0, 5))], "expect_error": True}
+    if draw(st.integers(0, 5)) == 0:
+        c = draw(callgraph.tailcall_cases())
+        c["opts"] = VECS[draw(st.integers(6, len(VECS) - 1))]
+        return c
     c = draw(callgraph.callgraph_cases())
     c["opts"] = VECS[draw(st.integers(0, len(VECS) - 1))]
     return c
